@@ -428,9 +428,9 @@ func collectLenOperands(v ssa.Value, out map[ssa.Value]bool, depth int) {
 // c11Threshold (M5 = C01.R6).
 func c11Threshold(p *an.Prog, r *an.Report) {
 	// reader: predicates func([]byte) bool of package data used by the pair loop
-	loop := p.Func("data.parseKeyValuePairs")
+	loop := discoverPairLoop(p)
 	if loop == nil {
-		r.Fail("C11.M5: anchor data.parseKeyValuePairs not found")
+		r.Fail("C11.M5: the pair-reading loop of the mapping reader was not found (no function in the closure of data.ReadMappingValues with a loop that reads I2PStrings)")
 		return
 	}
 	minPair, facts := minimalPairSize(p)
@@ -579,9 +579,9 @@ func calledByPredicate(p *an.Prog, f, loop *ssa.Function) bool {
 
 // minimalPairSize derives 2*len-prefix + 2 delimiters from the pair writer.
 func minimalPairSize(p *an.Prog) (int64, []string) {
-	w := p.Func("data.serializeOnePair")
+	w := discoverPairWriter(p)
 	if w == nil {
-		return -1, []string{"data.serializeOnePair not found"}
+		return -1, []string{"the pair writer of the mapping serializer was not found (no function in the closure of (*Mapping).Data that appends two constant delimiter bytes)"}
 	}
 	var total int64
 	var facts []string
@@ -622,4 +622,86 @@ func minimalPairSize(p *an.Prog) (int64, []string) {
 		}
 	}
 	return total, []string{"writer minimum: " + strings.Join(facts, "; ")}
+}
+
+
+// discoverPairLoop: the function that iterates over the key/value pairs of a mapping being read —
+// by name if it is still called parseKeyValuePairs, otherwise the function of package data in the
+// closure of ReadMappingValues that contains a loop from which ReadI2PString is reachable.
+func discoverPairLoop(p *an.Prog) *ssa.Function {
+	if f := p.Func("data.parseKeyValuePairs"); f != nil {
+		return f
+	}
+	root := p.Func("data.ReadMappingValues")
+	reader := p.Func("data.ReadI2PString")
+	if root == nil || reader == nil {
+		return nil
+	}
+	var cands []*ssa.Function
+	for f := range libClosure(p, root) {
+		if !strings.HasSuffix(an.FnPkgPath(f), "/data") || len(naturalLoops(f)) == 0 {
+			continue
+		}
+		for _, li := range naturalLoops(f) {
+			hit := false
+			for blk := range li.body {
+				for _, in := range blk.Instrs {
+					if c, ok := in.(*ssa.Call); ok {
+						if g := c.Call.StaticCallee(); g != nil && an.InLib(g) {
+							if _, ok := libClosure(p, g)[reader]; ok || g == reader {
+								hit = true
+							}
+						}
+					}
+				}
+			}
+			if hit {
+				cands = append(cands, f)
+				break
+			}
+		}
+	}
+	if len(cands) == 1 {
+		return cands[0]
+	}
+	return nil
+}
+
+// discoverPairWriter: the function that writes one key/value pair — by name if it is still called
+// serializeOnePair, otherwise the function in the closure of (*Mapping).Data that appends at least
+// two single constant bytes (the '=' and ';' delimiters).
+func discoverPairWriter(p *an.Prog) *ssa.Function {
+	if f := p.Func("data.serializeOnePair"); f != nil {
+		return f
+	}
+	root := p.Func("data.(*Mapping).Data")
+	if root == nil {
+		return nil
+	}
+	var cands []*ssa.Function
+	for f := range libClosure(p, root) {
+		n := 0
+		for _, b := range f.Blocks {
+			for _, in := range b.Instrs {
+				c, ok := in.(*ssa.Call)
+				if !ok || !isBuiltin(c, "append") || len(c.Call.Args) != 2 {
+					continue
+				}
+				if sl, ok := c.Call.Args[1].(*ssa.Slice); ok {
+					if a, ok := sl.X.(*ssa.Alloc); ok {
+						if arr, ok := an.Deref(a.Type()).Underlying().(*types.Array); ok && arr.Len() == 1 {
+							n++
+						}
+					}
+				}
+			}
+		}
+		if n >= 2 {
+			cands = append(cands, f)
+		}
+	}
+	if len(cands) == 1 {
+		return cands[0]
+	}
+	return nil
 }
